@@ -288,6 +288,9 @@ def random_case(rng, thorough):
                 v = rng.choice(TEXTS) if rng.random() < 0.93 else rng.choice(KF_TEXTS)
                 if rng.random() < 0.2:
                     v = "".join(rng.choice(TEXTS)[:6] for _ in range(3))
+                if _ILLEGAL.search(v) and r <= 3:
+                    r += 3          # (the driver's charts cache A1:B3: the same raw character would also break the chart part)
+                    valued.add((s, r, c))
                 st.append(cell(s, r, c, "text", v, sty=sty))
             elif k == "num":
                 x = rng.choice(NUMS) if rng.random() < 0.6 else rng.uniform(-1e6, 1e6) * 10 ** rng.randint(-20, 20)
